@@ -7,12 +7,13 @@ import JRV.Driver.Client
 import JRV.Driver.Payload
 import JRV.Driver.Headers
 import JRV.Driver.Wire
+import JRV.Driver.ConfigHeap
 
 namespace JRV.Driver
 
 def components : List (String × (List String → String)) := [
   ("echo", echo), ("norm", norm), ("truthy", truthyC), ("pyeq", pyeqC), ("cmpint", cmpIntC)
-] ++ clientComponents ++ payloadComponents ++ headersComponents ++ wireComponents
+] ++ clientComponents ++ payloadComponents ++ headersComponents ++ wireComponents ++ configHeapComponents
 
 def handle (line : String) : String :=
   match JRV.Codec.tokens line with
